@@ -450,6 +450,89 @@ def stream_devlag(ctx, rng, n):
             ctx.disagree("dev_lag days", case, mo, wv)
 
 
+def stream_sentinel(ctx, rng, n):
+    """`evaluation_date == date.max` (date_utils.py:36-40) and `add_months(d, inf)` (58-59): the sentinel lag
+    (inf / timedelta.max, decided BEFORE the unit dispatch) and the inverse law on it, against
+    calculateDevLagExt / addMonthsExt; a share of ordinary evaluation dates runs through the same op so that
+    the short-circuit is seen NOT to fire below date.max (incl. date.max - 1 day)."""
+    import numpy as np
+    MAXD = D.max
+    items, impl, meta = [], [], []
+    near = [MAXD - ONE, D(9999, 12, 1), D(9999, 11, 30), D(9998, 12, 31)]
+    for i in range(n):
+        pe = D.fromordinal(rand_date(rng, ORD_1900, ORD_2100)) if rng.random() < 0.7 else month_end_of_id(
+            rng.randrange(PRE_IDLO, IDHI + 1))
+        u = rng.random()
+        if u < 0.6:
+            ev, kind_ev = MAXD, "max"
+        elif u < 0.75:
+            ev, kind_ev = rng.choice(near), "near-max"
+        else:
+            ev, kind_ev = D.fromordinal(min(ORD_2100, pe.toordinal() + rng.randrange(0, 4000))), "ordinary"
+        unit = rng.choice(LAG_UNITS + ["TimeDelta", "timedelta ", "bogus"])
+        via_cell = rng.random() < 0.5
+        if via_cell:
+            psd = D.fromordinal(max(ORD_1900, pe.toordinal() - rng.choice([0, 1, 30, 364])))
+            # the validating constructor refuses evaluation_date == date.max (cell.py:88); such a cell exists only
+            # through the non-validating path, which is what Cell.dev_lag's sentinel branch serves
+            st, c = call(Cell, psd, pe, ev, {"x": 1}, _skip_validation=(ev == MAXD))
+            if st != "ok":
+                ctx.fail("Cell with period_start <= period_end, period_start <= evaluation_date refused",
+                         {"ps": w_date(psd), "pe": w_date(pe), "ev": w_date(ev)}, c)
+                continue
+            st, v = call(c.dev_lag, unit)
+        else:
+            st, v = call(du.calculate_dev_lag, pe, ev, unit)
+        back = None
+        if st != "ok":
+            wl, kind = None, v
+        elif isinstance(v, datetime.timedelta):
+            kind = "timedelta"
+            wl = "tdmax" if v == datetime.timedelta.max else ["fin", w_rat(Fraction(v.days) + Fraction(v.seconds, 86400))]
+        elif isinstance(v, float) and v == float("inf"):
+            kind, wl = "float", "inf"
+            # the three spellings of infinity a caller can pass
+            delta = [v, float("inf"), np.inf, np.float64("inf")][i % 4]
+            s2, r = call(du.add_months, pe, delta)
+            back = w_date(r) if s2 == "ok" else None
+        else:
+            kind, wl = type(v).__name__, ["fin", w_rat(v)]
+            if "month" in unit.lower() and kind_ev == "ordinary":
+                s2, r = call(du.add_months, pe, v)
+                back = w_date(r) if s2 == "ok" else None
+        items.append(w_date(pe) + w_date(ev) + [unit])
+        impl.append([wl, back])
+        meta.append((via_cell, kind, kind_ev))
+        ctx.case(digest=f"sentinel/{pe.toordinal()}/{ev.toordinal()}/{unit}",
+                 sample={"op": "dev_lag at date.max", "pe": w_date(pe), "ev": w_date(ev), "unit": unit} if i < 1 else None)
+        ctx.count(f"sentinel/{kind_ev}/{'tdmax' if wl == 'tdmax' else 'inf' if wl == 'inf' else 'refused' if wl is None else 'finite'}")
+    ctx.evaluations += len(items)
+    out = common.Driver(DRV).run([{"op": "devLagExt", "items": items, "impl": impl}])[0]
+    for it, (wl, back), (via_cell, kind, kind_ev), (ml, mback), sp in zip(items, impl, meta, out["model"], out["spec"]):
+        case = {"call": "Cell.dev_lag(unit)" if via_cell else "calculate_dev_lag(pe, ev, unit)",
+                "pe": it[0:3], "ev": it[3:6], "unit": it[6]}
+        if sp is False:
+            ctx.fail("inverse law on the sentinel: add_months(pe, calculate_dev_lag(pe, date.max)) is not date.max",
+                     case, {"lag": wl, "add_months(pe, lag)": back, "model": mback})
+            continue
+        if wl is None or ml is None:
+            if (wl is None) != (ml is None) or (wl is None and kind != "ValueError"):
+                ctx.disagree("calculate_dev_lag refusal (date.max short-circuits before the unit dispatch; below it an "
+                             "unknown unit is a ValueError)", case, ml, wl if wl is not None else kind)
+            continue
+        if isinstance(wl, list) and isinstance(ml, list):
+            a, b = Fraction(wl[1]), Fraction(ml[1])
+            if (a != b) if ("month" not in it[6].lower()) else abs(a - b) > TOL * max(1, abs(b)):
+                ctx.disagree("calculate_dev_lag below date.max (must not short-circuit)", case, ml, wl)
+            elif back is not None and mback is not None and back != mback and it[3] >= 1970:
+                # finite month lag: the model's exact lag and the float lag can round differently only before 1970
+                ctx.disagree("add_months(pe, finite lag)", case, mback, back)
+        elif wl != ml:
+            ctx.disagree("calculate_dev_lag sentinel (inf / timedelta.max only at date.max)", case, ml, wl)
+        elif wl == "inf" and back != mback:
+            ctx.disagree("add_months(pe, inf)", case, mback, back)
+
+
 def stream_ids(ctx, rng, n):
     drv = common.Driver(DRV)
     dates = [D.fromordinal(rand_date(rng, ORD_1900, ORD_2100)) for _ in range(n)]
@@ -683,6 +766,7 @@ def correspondence(ctx):
 
     # ---- (4) unit dispatch, ids, resolutions -------------------------------------------
     stream_devlag(ctx, rng, 20_000 if ctx.thorough else 4_000)
+    stream_sentinel(ctx, rng, 6_000 if ctx.thorough else 1_500)
     stream_ids(ctx, rng, 20_000 if ctx.thorough else 3_000)
     stream_resolution(ctx, rng, 30_000 if ctx.thorough else 6_000)
 
@@ -696,7 +780,7 @@ if __name__ == "__main__":
              "statement recomputed from add_months; mismatches expanded to (date,k)); 200k random pairs (p,e) for the "
              "inverse law (uniform / month ends / near / adjacent / February and year edges), 40k pairs touching 1900-1969, "
              "sampled start dates in 1900-1969 and offsets into 1900-1969; 4k dev_lag unit dispatches (Cell.dev_lag and "
-             "calculate_dev_lag), all month ids with both flags; resolution_delta vs add_months / day arithmetic / model: 6k random, every 28 and 29 "
+             "calculate_dev_lag), 1.5k dispatches at / next to date.max (sentinel: inf, timedelta.max, add_months(d, inf)), all month ids with both flags; resolution_delta vs add_months / day arithmetic / model: 6k random, every 28 and 29 "
              "February 1970-2100 x every unit spelling x both signs x 3 quantities, every month end 1970-2100 and the days "
              "around it (27-31, 1-2) x month/quarter/year/day-or-week spelling x both signs (thorough: every date). thorough: "
              "EVERY date 1970-01-01..2100-12-31 x every k, every date 1900-1969 x every k, 1M + 400k pairs, sampled p x "
@@ -704,7 +788,10 @@ if __name__ == "__main__":
              "evaluations counts single add_months / dev_lag / id calls",
         assumptions=["dates within 1900-01-01..2100-12-31 (the theorems hold for all dates from 1970 on; the tie between "
                      "floating point code and exact model is enumeration on the stated range)",
-                     "finite month offsets (delta == inf short-circuits to date.max and is not part of the property)",
+                     "the date.max sentinel (evaluation_date == date.max -> inf / timedelta.max before the unit dispatch; "
+                     "add_months(d, inf) -> date.max) is modelled by the wrappers calculateDevLagExt / addMonthsExt "
+                     "(Model/DateUtilsExt.lean; theorems calculateDevLagExt_fin/_max, addMonthsExt_devLagExt_max) and "
+                     "compared in the `sentinel` stream; NaN and -inf deltas are outside the property",
                      "float month lags are compared with the exact model lag with tolerance 2^-40*max(1,|lag|); "
                      "dates, day lags and month-end lags are compared exactly"],
         trusted=["CPython datetime.date ordinal arithmetic and calendar.monthrange as modelled (Model/Basic.lean dim, ordinal)",
